@@ -81,6 +81,25 @@ fn greedy_count(hay: &[u8], needle: &[u8], rev: bool) -> usize {
 /// `,`-separated: `f:<hay>` (find / rfind) `i:<hay>` (complete find_iter / rfind_iter
 /// traversal, number of matches) `r` (as_ref, continue with the copy) `o` `k` `n`.
 pub fn finder_machine(a: &[&str], rev: bool) -> Option<String> {
+    finder_machine_al(a, rev, None)
+}
+
+/// `finderopsal <cfg> <pf> <off> <needle> <ops>` / `finderrevopsal <cfg> <off> <needle> <ops>`:
+/// the needle the finder borrows is the sub-slice at `<off>` of the first haystack of the program
+/// (which must contain the needle there); every later haystack with the same bytes is that same
+/// buffer.
+pub fn finder_machine_alias(a: &[&str], rev: bool) -> Option<String> {
+    let k = if rev { 1 } else { 2 };
+    if a.len() <= k {
+        return None;
+    }
+    let off: usize = a[k].parse().ok()?;
+    let mut b: Vec<&str> = a.to_vec();
+    b.remove(k);
+    finder_machine_al(&b, rev, Some(off))
+}
+
+fn finder_machine_al(a: &[&str], rev: bool, alias: Option<usize>) -> Option<String> {
     let (pf, needle_s, ops_s) = if rev {
         if a.len() != 3 {
             return None;
@@ -95,14 +114,32 @@ pub fn finder_machine(a: &[&str], rev: bool) -> Option<String> {
     let needle = parse_bytes(needle_s)?;
     let ops: Vec<&str> = if ops_s == "-" { vec![] } else { ops_s.split(',').collect() };
     let mut hays: Vec<Option<(Vec<u8>, Placed)>> = Vec::new();
-    for o in ops.iter() {
+    // index (into `hays`) of the buffer the needle is borrowed from
+    let mut alias_at: Option<usize> = None;
+    let mut same_as: Vec<Option<usize>> = Vec::new();
+    for (i, o) in ops.iter().enumerate() {
         match o.strip_prefix("f:").or_else(|| o.strip_prefix("i:")) {
             Some(h) => {
                 let b = parse_bytes(h)?;
+                let mut same = None;
+                if alias.is_some() {
+                    match alias_at {
+                        None => alias_at = Some(i),
+                        Some(j) => {
+                            if hays[j].as_ref().map(|x: &(Vec<u8>, Placed)| x.0 == b).unwrap_or(false) {
+                                same = Some(j);
+                            }
+                        }
+                    }
+                }
                 let p = Placed::new(&b, 65536);
                 hays.push(Some((b, p)));
+                same_as.push(same);
             }
-            None => hays.push(None),
+            None => {
+                hays.push(None);
+                same_as.push(None);
+            }
         }
     }
     let mut out: Vec<String> = Vec::with_capacity(ops.len() + 2);
@@ -110,32 +147,49 @@ pub fn finder_machine(a: &[&str], rev: bool) -> Option<String> {
     let mut total_allocs = 0u64;
     // Every handle is 'static: the needle buffer and the finders that `as_ref` borrows from are
     // leaked (outside the measured closures).
-    let nleak: &'static mut [u8] = Box::leak(needle.clone().into_boxed_slice());
-    let nptr = nleak.as_mut_ptr();
-    let nlen = nleak.len();
+    let (nptr, nlen): (*mut u8, usize) = match alias {
+        None => {
+            let nleak: &'static mut [u8] = Box::leak(needle.clone().into_boxed_slice());
+            (nleak.as_mut_ptr(), nleak.len())
+        }
+        Some(off) => {
+            let (hb, hp) = hays[alias_at?].as_ref()?;
+            if off + needle.len() > hb.len() || hb[off..off + needle.len()] != needle[..] {
+                return None;
+            }
+            (unsafe { hp.slice().as_ptr().add(off) as *mut u8 }, needle.len())
+        }
+    };
     let nstatic: &'static [u8] = unsafe { core::slice::from_raw_parts(nptr, nlen) };
     enum H {
         F(memchr::memmem::Finder<'static>),
         R(memchr::memmem::FinderRev<'static>),
     }
-    let mut cur = if rev {
-        H::R(memchr::memmem::FinderRev::new(nstatic))
-    } else {
-        use memchr::memmem::{FinderBuilder, Prefilter};
-        let mut b = FinderBuilder::new();
-        match pf {
-            "auto" => b.prefilter(Prefilter::Auto),
-            "none" => b.prefilter(Prefilter::None),
-            _ => return None,
-        };
-        H::F(b.build_forward(nstatic))
-    };
+    // construction from the borrowed needle is measured too (the recorder is off: it allocates)
+    crate::vreset();
+    verif::set_trace(false);
+    if !matches!(pf, "auto" | "none") {
+        return None;
+    }
+    let (mut cur, build_allocs) = alloc_probe::measure(|| {
+        if rev {
+            H::R(memchr::memmem::FinderRev::new(nstatic))
+        } else {
+            use memchr::memmem::{FinderBuilder, Prefilter};
+            let mut b = FinderBuilder::new();
+            b.prefilter(if pf == "auto" { Prefilter::Auto } else { Prefilter::None });
+            H::F(b.build_forward(nstatic))
+        }
+    });
+    total_allocs += build_allocs;
+    crate::vreset();
+    verif::set_trace(false);
     let mut is_owned = false;
     crate::vreset();
     verif::set_trace(false);
     for (i, op) in ops.iter().enumerate() {
         if op.starts_with("f:") {
-            let (hb, hp) = hays[i].as_ref().unwrap();
+            let (hb, hp) = hays[same_as[i].unwrap_or(i)].as_ref().unwrap();
             let (r, al) = alloc_probe::measure(|| match &cur {
                 H::F(f) => f.find(hp.slice()),
                 H::R(f) => f.rfind(hp.slice()),
@@ -144,7 +198,7 @@ pub fn finder_machine(a: &[&str], rev: bool) -> Option<String> {
             out.push(fmt_opt(r));
             oracle.push(fmt_opt(if rev { naive_rfind(hb, &needle) } else { naive_find(hb, &needle) }));
         } else if op.starts_with("i:") {
-            let (hb, hp) = hays[i].as_ref().unwrap();
+            let (hb, hp) = hays[same_as[i].unwrap_or(i)].as_ref().unwrap();
             let (k, al) = alloc_probe::measure(|| match &cur {
                 H::F(f) => f.find_iter(hp.slice()).count(),
                 H::R(f) => f.rfind_iter(hp.slice()).count(),
@@ -202,7 +256,7 @@ pub fn finder_machine(a: &[&str], rev: bool) -> Option<String> {
     let rep = verif::take();
     let steps = rep.ticks.iter().sum::<u64>();
     // after into_owned the original needle buffer may be destroyed
-    if is_owned {
+    if is_owned && alias.is_none() {
         unsafe {
             for k in 0..nlen {
                 *nptr.add(k) = 0xEE;
